@@ -305,8 +305,9 @@ def run(ctx: Ctx, replay: str | None) -> None:
         "executed node saves tensors and was freed, frees the executed nodes unless retain_graph) is re-measured on "
         "every history by a twin graph driven by torch.autograd alone; model != twin is a machinery failure",
         "the per-node freed state is observed by differentiating each node alone with retain_graph=True",
-        "mtl_backward is only called on shapes whose heads share no graph node besides the features and whose losses "
-        "do not reach the trunk around the features (decided exactly by GraphLife!MtlOK; DESIGN R10)",
+        "mtl_backward is only called on shapes whose heads share no graph node besides the features, whose losses do "
+        "not reach the trunk around the features (DESIGN R10), and whose features are 'the last shared representation': "
+        "none computed from another one, each used by some loss (all decided exactly by GraphLife!MtlOK)",
         "a history stops being compared at its first failing call (torch frees part of the graph before failing)",
         "'an identical second call adds an identical update' is checked as equality of the .grad increments of "
         "identical successful torchjd calls within a history (integers, Sum aggregator)",
@@ -335,7 +336,7 @@ def run(ctx: Ctx, replay: str | None) -> None:
         h2_cfg = h2_cfg.replace("AllPatterns = TRUE", "AllPatterns = FALSE")
     sim_cfg = (base.replace("INVARIANT OnlyLastSweepFrees", inv_export).replace("TrackHist = FALSE", "TrackHist = TRUE")
                .replace("Ks = {0, 1, 2}", "Ks = {0, 1, 2, 3, 4}"))
-    nsim = 2500 if quick else 40000
+    nsim = 2500 if quick else 25000
     with ThreadPoolExecutor(3) as ex:
         f_mc = ex.submit(run_tlc, "GraphLife", cfg_text=mc_cfg, workers=8, seed=ctx.seed, coverage=True, timeout=3000)
         f_h2 = ex.submit(run_tlc, "GraphLife", cfg_text=h2_cfg, workers=6, seed=ctx.seed, timeout=3000)
@@ -376,7 +377,9 @@ def run(ctx: Ctx, replay: str | None) -> None:
             ctx.nontrivial(hist_key(r["item"]))
     ctx.count("histories_replayed", len(results))
     ctx.count("histories_ending_in_a_failing_call", sum(1 for r in results if r["steps"] and r["steps"][-1]["tw"]["outcome"] == "fail"))
-    for r in (results[1], results[len(results) // 2], results[-2]):
+    rich = [r for r in results if nontrivial(r["item"]) and any(s["tj"]["freed"] for s in r["steps"])]
+    failing = [r for r in rich if r["steps"][-1]["tw"]["outcome"] == "fail"]
+    for r in (rich[:1] + failing[len(failing) // 2: len(failing) // 2 + 1] + rich[-1:]) or results[:2]:
         ctx.sample({"graph": r["item"]["shape"]["graph"], "history": [call_text(c) for c in r["item"]["calls"]],
                     "observed": [{"torchjd": s["tj"], "twin": s["tw"]} for s in r["steps"]]})
 
